@@ -26,3 +26,4 @@ static inline struct bvalue stale_make_value(vec_pstr list) { struct bvalue v; v
 struct BuildSystemDelegate; struct BuildSystem;
 static inline struct BuildSystemDelegate *stale_delegate(struct BuildSystem *s) { return (struct BuildSystemDelegate *)s; }
 static inline void stale_result(struct resultfn *f, struct bvalue v) { g_results++; g_result_from = v.from; g_result_kind = v.kind; }
+static inline struct plist stale_prior_list(const struct bvalue *v) { struct plist l; l.src = &g_prior_list_marker; return l; }
